@@ -104,6 +104,7 @@ def parseSuite (s : String) : Option (Out SuiteConfig) :=
   match s.splitOn ":" with
   | ["R", raw] => (unhex raw).map newRawSuite
   | "C" :: _ => (parseCfg s).map .ok
+  | "M" :: rest => (parseCfg (":".intercalate ("C" :: rest))).map .ok
   | "S" :: rest => (parseCfg (":".intercalate ("C" :: rest))).map newSuite
   | _ => none
 
@@ -194,7 +195,7 @@ def step (line : String) : String :=
     match unhex s with
     | some s => withSpec (showOut (decodeSecret s)) (Spec.Run.dec s)
     | none => "bad-op"
-  | ["rnd", a, stream] =>
+  | ["rnd", a, stream, _chunk] =>
     match a.toNat?, unhex stream with
     | some a, some st =>
       let (r, rest) := randomSecret a st
